@@ -16,15 +16,19 @@ type fault struct {
 	lenient bool        // the documentation does not clearly demand an error: only counted if none is raised
 	getters []string    // getters through which the same fault must be reported
 	// parentRaised: the error is produced on behalf of the holder of the
-	// setting because no value exists at the setting (absent, null) or the
+	// setting because no value exists at the setting (absent) or the
 	// documentation does not pin the outcome down (lenient): only the source
 	// family is demanded, not the exact operand of a merge chain. A value that
-	// exists (primitive, reference text, list, object) carries the source of
-	// the operand that delivered it.
+	// exists (primitive, reference text, list, object, and an explicit null: it
+	// was written in one of the operands) carries the source of the operand
+	// that delivered it.
 	parentRaised bool
 	// form of a reference fault: "" (the whole value is the reference) or the
 	// kind of splice the reference is embedded in
-	form    string
+	form string
+	// refTo: the setting a resolving reference points to (it must not be
+	// named in place of the setting holding the reference)
+	refTo   string
 	wantRel string // the error is expected to name this setting below the fault position
 	// extras are helper settings added at the top level of the configuration
 	// (only when the target is a struct, which does not read them): they are
@@ -152,7 +156,7 @@ func faultsAt(p *position, env faultEnv) []fault {
 				add(fault{kind: "required-in-missing-struct", del: true, parentRaised: true, wantRel: rel, noSource: true})
 				// the struct setting is present as null: its members are
 				// absent all the same, but the null carries a source
-				add(fault{kind: "required-in-null-struct", val: model.Nil(), parentRaised: true, wantRel: rel})
+				add(fault{kind: "required-in-null-struct", val: model.Nil(), wantRel: rel})
 			}
 		}
 		refs()
@@ -183,7 +187,7 @@ func faultsAt(p *position, env faultEnv) []fault {
 		if hasTag(tag, "required") {
 			add(fault{kind: "validator-required-empty", val: model.List()})
 			if !p.elemTag {
-				add(fault{kind: "validator-required-null", val: model.Nil(), parentRaised: true})
+				add(fault{kind: "validator-required-null", val: model.Nil()})
 				add(fault{kind: "validator-required-missing", del: true, parentRaised: true})
 			}
 		}
@@ -191,6 +195,11 @@ func faultsAt(p *position, env faultEnv) []fault {
 	case kLeaf:
 		leafFaults(p, s, tag, add, pick)
 		refs()
+		// a reference that resolves, but to an object of the tree (valid where
+		// it is): the wrong typed setting is the one holding the reference
+		if d := env.dictFor(p.path); s.leaf != lSpan && d != "" && !strings.HasPrefix(pathStr(p.path), d+".") {
+			add(fault{kind: "reference-to-object-for-primitive", val: model.P("${" + d + "}"), getters: []string{"String", "Int", "Bool", "Float", "Uint"}, refTo: d})
+		}
 	}
 	return out
 }
@@ -255,12 +264,12 @@ func leafFaults(p *position, s *spec, tag string, add func(fault), pick func(int
 				add(fault{kind: "validator-required-empty", val: model.P("")})
 			}
 			if !p.elemTag {
-				add(fault{kind: "validator-required-null", val: model.Nil(), parentRaised: true})
+				add(fault{kind: "validator-required-null", val: model.Nil()})
 				add(fault{kind: "validator-required-missing", del: true, parentRaised: true})
 			}
 		}
 	} else if hasTag(tag, "required") && !p.elemTag {
-		add(fault{kind: "validator-required-null", val: model.Nil(), parentRaised: true})
+		add(fault{kind: "validator-required-null", val: model.Nil()})
 		add(fault{kind: "validator-required-missing", del: true, parentRaised: true})
 	}
 
